@@ -102,6 +102,8 @@ func RequestLayout(sp *spec.Spec, svc *spec.Service, m *spec.Method) *Layout {
 		l.Whole = true
 		p := &Place{Attr: "", T: m.Payload, Req: "required", Loc: spec.LocBody}
 		switch {
+		case h.MapParams == "*":
+			p.Loc = "mapparams"
 		case len(pathVars) == 1:
 			p.Loc, p.Wire = spec.LocPath, pathVars[0]
 		case len(h.Params) == 1:
@@ -133,7 +135,9 @@ func RequestLayout(sp *spec.Spec, svc *spec.Service, m *spec.Method) *Layout {
 				inPath = true
 			}
 		}
-		if w, ok := wireOf(h.Params, a.Name); ok && !inPath {
+		if h.MapParams == a.Name {
+			p.Loc, p.Wire = "mapparams", a.Name
+		} else if w, ok := wireOf(h.Params, a.Name); ok && !inPath {
 			p.Loc, p.Wire = spec.LocQuery, w
 		} else if inPath {
 			p.Loc, p.Wire = spec.LocPath, a.Name
